@@ -111,3 +111,17 @@ Theorem reserved_word_stays_keyword guard latest t :
 Proof.
   unfold keyword_allowed. destruct guard as [k|]; [|reflexivity]. intros [H|H]; rewrite H; [apply orb_true_r|reflexivity].
 Qed.
+
+(* inside a compiler directive the NAMES of directives pass whatever set is in force (`include is a directive also
+   where the word include is not reserved): the guard of keyword() as it stands since the repair of that case *)
+Definition keyword_allowed_at (in_directive : bool) (directive_names : list string) (guard : option (list string))
+           (latest : list string) (t : string) : bool :=
+  (in_directive && mem t directive_names) || keyword_allowed guard latest t.
+
+Lemma keyword_allowed_outside_directives names guard latest t :
+  keyword_allowed_at false names guard latest t = keyword_allowed guard latest t.
+Proof. reflexivity. Qed.
+
+Theorem directive_name_always_allowed names guard latest t :
+  mem t names = true -> keyword_allowed_at true names guard latest t = true.
+Proof. intros H. unfold keyword_allowed_at. now rewrite H. Qed.
